@@ -23,7 +23,7 @@ import (
 
 func TestVerif_ConfigReread(t *testing.T) {
 	prop := vEnv("VERIF_PROP", "C07")
-	if prop != "C15" && prop != "C11" {
+	if prop != "C15" && prop != "C11" && prop != "C08" {
 		prop = "C07"
 	}
 	c := vStart(t, prop, "TestVerif_ConfigReread")
@@ -53,6 +53,11 @@ func TestVerif_ConfigReread(t *testing.T) {
 			cfg1.Motion.DeltaThresh = 50
 			cfg2.Motion = simpleMotion(1, 1)
 			cfg2.Motion.DeltaThresh = 5000 // the scene's changes (1000 counts) are no motion any more
+			if prop == "C08" {
+				// as a job of C08: the border is widened from 1 to 3 pixels instead, and the second
+				// connection's warm block lies wholly inside the new border
+				cfg2.Motion.DeltaThresh, cfg2.Motion.EdgePixels = 50, 3
+			}
 		}
 		base := 30500
 		mk := func(seq0, n int) []*pFrame {
@@ -60,9 +65,12 @@ func TestVerif_ConfigReread(t *testing.T) {
 			for i := 0; i < n; i++ {
 				f := &pFrame{Seq: seq0 + i, TimeOnMS: timeOnFor(seq0 + i), FPATempCK: 30000, FPAFFCCK: 30000, Pix: newPix(cam.ResX, cam.ResY, uint16(base-i))}
 				if i >= 3*fps && i < 3*fps+4 {
-					bx := 2 + (i*3)%9
+					bx, bw := 2+(i*3)%9, 3
+					if prop == "C08" && seq0 > 0 {
+						bx, bw = 1, 2 // columns 1 and 2: interior with edge-pixels 1, border with 3
+					}
 					for y := 4; y < 7; y++ {
-						for x := bx; x < bx+3; x++ {
+						for x := bx; x < bx+bw; x++ {
 							f.Pix[y][x] = uint16(base - i + jump)
 						}
 					}
@@ -133,7 +141,11 @@ func TestVerif_ConfigReread(t *testing.T) {
 			}
 			if !dynamic {
 				if len(second) != 0 {
-					c.Violation("false-motion", "settings edited between connections", fmt.Sprintf("delta-thresh was raised from 50 to 5000 before the second connection; a block 1000 counts warmer still started %d recording(s): %s", len(second), filesString(second)))
+					what := "delta-thresh was raised from 50 to 5000 before the second connection; a block 1000 counts warmer"
+					if prop == "C08" {
+						what = "edge-pixels was raised from 1 to 3 before the second connection; a warm block in columns 1-2, inside the new border,"
+					}
+					c.Violation("false-motion", "settings edited between connections", fmt.Sprintf("%s still started %d recording(s): %s", what, len(second), filesString(second)))
 					return
 				}
 			} else {
